@@ -834,6 +834,18 @@ func (g *gen) body(mode string) ([]byte, string) {
 		}
 		return "\n"
 	}
+	if mode == "oversize-tail-exact" {
+		// regression for 7e46066: pairs, then an action line and an unterminated line of exactly k*B bytes
+		for i := r.Range(0, 3); i > 0; i-- {
+			sb.WriteString(actionLines[r.Intn(2)] + eol())
+			sb.WriteString(objectOfLen(r, r.Range(2, B-2)) + eol())
+		}
+		sb.WriteString(actionLines[r.Intn(2)] + eol())
+		sb.WriteString(objectOfLen(r, r.Range(1, 3)*B))
+		g.feat["oversize"] = true
+		g.feat["no-final-newline"] = true
+		return sb.Bytes(), class
+	}
 	special := ""
 	if mode == "time-far-future" || mode == "estime-long-fraction" {
 		special = mode
@@ -1005,7 +1017,7 @@ func worker(spec workerSpec, out io.Writer) {
 		if r.Chance(1, 3) {
 			rq.Chunk = r.Range(1, 40)
 		}
-		rq.Eager = r.Bool()
+		rq.Eager = r.Bool() && mode != "oversize-tail-exact"
 		if _, _, edge := tailExact(body, e.B); edge {
 			// how a gzip reader reports EOF is its own business: keep the edge to the plain reader
 			rq.Gzip = false
@@ -1023,7 +1035,7 @@ func plan(tier string, seed uint64) []workerSpec {
 	fr := []string{"framing", "framing", "protocol"}
 	mix := []string{"framing", "time", "protocol", "shapes", "time"}
 	tm := []string{"time", "time", "shapes", "framing"}
-	sp := []string{"time-far-future", "estime-long-fraction"}
+	sp := []string{"time-far-future", "estime-long-fraction", "oversize-tail-exact"}
 	k := 1
 	if tier == "thorough" {
 		k = 40
@@ -1031,7 +1043,7 @@ func plan(tier string, seed uint64) []workerSpec {
 	specs := []workerSpec{
 		{7, 500 * k, fr, 0}, {16, 500 * k, fr, 0}, {17, 500 * k, fr, 0}, {23, 400 * k, fr, 0}, {32, 500 * k, fr, 0},
 		{64, 700 * k, mix, 0}, {100, 600 * k, mix, 0}, {200, 800 * k, tm, 0}, {1024, 150 * k, mix, 0},
-		{128, 40, sp, 0},
+		{128, 60, sp, 0}, {20, 30, []string{"oversize-tail-exact"}, 0},
 	}
 	if tier == "thorough" {
 		specs = append(specs, workerSpec{4096, 300, mix, 0}, workerSpec{33, 500 * k, fr, 0}, workerSpec{257, 200 * k, mix, 0})
